@@ -176,7 +176,10 @@ def document_cycle(case):
                     new.append(ch)
                 etree.cleanup_namespaces(new)
                 ptext = etree.tostring(new, encoding="unicode")
-                if "<pfx:" in ptext:
+                import re as _re
+                # ... and the variant in which only inner (empty) elements carry a locally declared prefix
+                ltext = _re.sub(r"<([A-Za-z_][\w.-]*)((?:\s[^<>]*?)?)/>", lambda m: '<lq:%s xmlns:lq="%s"%s/>' % (m.group(1), NSU, m.group(2)), texts[0])
+                for ptext in ([ptext] if "<pfx:" in ptext else []) + ([ltext] if "<lq:" in ltext else []):
                     dp = read_neuroml2_string(ptext)
                     if dump(dp) != ref_dump:
                         mism.append("prefixed: the prefixed text loads to a different document")
